@@ -455,6 +455,33 @@ def _worker(jobs):
         if not pts:
             out.append({'i': i, 'cfg': cfg, 'skip': 'no point satisfies the domain constraints'})
             continue
+        if cfg.get('col') and len(pts) >= 2 and seed % 2 == 0:
+            # the sparsity of the automatic coloring is sampled at the first linearization: let one variable be exactly 0
+            # there (where the domain allows it), so that partials proportional to it vanish at that point only
+            arrs = [v for v in names if pts[0][v].size > 1]
+            for v in sorted(names, key=lambda u: (u not in arrs, u))[:2]:
+                p0 = {u: a.copy() for u, a in pts[0].items()}
+                p0[v] = np.zeros_like(p0[v])
+                env = {u: (p0[u].ravel() if u in arrs else float(p0[u].ravel()[0])) for u in names}
+                try:
+                    ok = bool(np.all(feasible(rec, env)))
+                    if ok:
+                        # not on a branch cut: the spec's value and derivatives do not depend on the sign of the zero
+                        m0 = {u: a.copy() for u, a in p0.items()}
+                        m0[v] = -m0[v]
+                        with np.errstate(all='ignore'):
+                            ya, _ = ev(rec['e'], {u: a for u, a in p0.items()})
+                            yb, _ = ev(rec['e'], {u: a for u, a in m0.items()})
+                            ok = bool(np.array_equal(np.asarray(ya, dtype=float), np.asarray(yb, dtype=float)))
+                            for x in sorted(rec['vars']):
+                                da, _ = ev(rec['d'][x], {u: a for u, a in p0.items()})
+                                db, _ = ev(rec['d'][x], {u: a for u, a in m0.items()})
+                                ok = ok and bool(np.array_equal(np.asarray(da, dtype=float), np.asarray(db, dtype=float)))
+                except Exception:
+                    ok = False
+                if ok:
+                    pts[0] = p0
+                    break
         fails, info = compare(rec, cfg, pts)
         out.append({'i': i, 'cfg': cfg, 'pts': [{v: a.tolist() for v, a in pt.items()} for pt in pts],
                     'fails': [(f[0], _l(f[1]), _l(f[2]), f[3]) for f in fails[:4]], 'info': info})
@@ -550,10 +577,32 @@ def has_branch(rec):
 def pred_stale_sparsity(scn, info):
     """automatic coloring keeps the sparsity sampled at the first linearization point: an entry whose exact derivative was
     (numerically) zero there - inactive max/min branch, abs(x)+x for x<0, saturated tanh - is nonzero at a later point"""
+    import numpy as np
     cfg = scn.get('cfg', {})
-    return (bool(cfg.get('col')) and not cfg.get('hd') and scn.get('point', 0) > 0
+    if not (bool(cfg.get('col')) and not cfg.get('hd') and scn.get('point', 0) > 0
             and scn.get('stale_sparsity_at') == scn.get('point')
-            and any(s in ('v', 'm') for s in cfg.get('shapes', [])))
+            and any(s in ('v', 'm') for s in cfg.get('shapes', []))):
+        return False
+    # The sparsity is sampled near the first point with exact zeros moved off zero (ExecComp._compute_coloring).  The known
+    # class is the one where a derivative is still exactly 0.0 THERE (underflow, saturation, inactive branch); an entry
+    # that vanishes only because an input is exactly 0 at the first point is not part of it.
+    try:
+        rec, pts = scn['rec'], scn['pts']
+        p0 = {v: np.array(a, dtype=float) for v, a in pts[0].items()}
+        if not any(np.any(a == 0.0) for a in p0.values()):
+            return True
+        moved = {v: np.where(a == 0.0, 1e-9, a) for v, a in p0.items()}
+        later = {v: np.array(a, dtype=float) for v, a in pts[scn['point']].items()}
+        with np.errstate(all='ignore'):
+            for x in sorted(rec['vars']):
+                d0, _ = ev(rec['d'][x], {v: (float(a) if a.ndim == 0 or a.size == 1 and False else a) for v, a in moved.items()})
+                d1, _ = ev(rec['d'][x], {v: a for v, a in later.items()})
+                d0, d1 = np.broadcast_arrays(np.asarray(d0, dtype=float), np.asarray(d1, dtype=float))
+                if np.any((d0 == 0.0) & (d1 != 0.0)):
+                    return True
+        return False
+    except Exception:
+        return False
 
 
 def replay(ctx):
